@@ -254,15 +254,15 @@ func (CodecJSON) Name() string { return "json" }
 type codecHTTPBody struct{}
 
 func (codecHTTPBody) Marshal(v interface{}) ([]byte, error) {
-	panic("not implemented")
+	return nil, errInvalidType(v)
 }
 
 func (codecHTTPBody) MarshalAppend(b []byte, v interface{}) ([]byte, error) {
-	panic("not implemented")
+	return nil, errInvalidType(v)
 }
 
 func (codecHTTPBody) Unmarshal(data []byte, v interface{}) error {
-	panic("not implemented")
+	return errInvalidType(v)
 }
 
 func (codecHTTPBody) Name() string { return "body" }
